@@ -100,11 +100,24 @@ def limit(mem_gb):
     return f
 
 
+CHILDREN = set()
+
+
+def kill_children(*_a):
+    for pid in list(CHILDREN):
+        try:
+            os.killpg(pid, 9)
+        except Exception:
+            pass
+    os._exit(143)
+
+
 def run(cmd, timeout, mem_gb, stdout_path=None):
     """Run a tool under a memory and time cap.  Returns (rc, stdout text, wall, status)."""
     t0 = time.time()
     try:
         p = subprocess.Popen(cmd, stdout=subprocess.PIPE, stderr=subprocess.PIPE, preexec_fn=limit(mem_gb))
+        CHILDREN.add(p.pid)
         try:
             out, err = p.communicate(timeout=timeout)
             st = 'done'
@@ -115,6 +128,7 @@ def run(cmd, timeout, mem_gb, stdout_path=None):
                 p.kill()
             out, err = p.communicate()
             st = 'timeout'
+        CHILDREN.discard(p.pid)
         return p.returncode, out.decode(errors='replace'), err.decode(errors='replace'), time.time() - t0, st
     except Exception as e:  # pragma: no cover
         return -1, '', str(e), time.time() - t0, 'error'
@@ -216,6 +230,10 @@ def run_K(h, meta, wdir, timeout, mem_gb):
     c = classify(res)
     r.update(c)
     r['checks'] = c['total']
+    if status not in ('success', 'failure') or any(x.get('status') == 'ERROR' for x in res):
+        oom = any('out of memory' in e.lower() for e in errs)
+        r.update(verdict='oom' if oom else 'error', detail=('; '.join(errs) or f'cProverStatus={status}')[:300])
+        return r
     if c['unwind_fail']:
         r.update(verdict='unwind', detail=c['unwind_fail'][0])
     elif c['unsupported']:
@@ -230,15 +248,20 @@ def run_K(h, meta, wdir, timeout, mem_gb):
 
 
 def resolve_unwindset(w, spec):
-    """spec: 'substring:bound,substring:bound' -> CBMC loop ids matched by function-name substring."""
+    """spec: 'fn-substring[.k]:bound,...' -> CBMC loop ids; the substring is matched against the demangled function name that
+    `cbmc --show-loops` prints for each loop (so it survives recompilation), k selects the k-th loop of that function."""
     p = subprocess.run([f'{BIN}/cbmc', '--show-loops', w], stdout=subprocess.PIPE, stderr=subprocess.DEVNULL, text=True)
-    loops = re.findall(r'^Loop (\S+):', p.stdout, re.M)
+    loops = re.findall(r'^Loop (\S+):\n.* function (.*)$', p.stdout, re.M)
     out = []
     for item in spec.split(','):
         sub, b = item.rsplit(':', 1)
-        for l in loops:
-            if sub in l:
-                out.append(f'{l}:{b}')
+        k = None
+        m = re.match(r'^(.*)\.(\d+)$', sub)
+        if m:
+            sub, k = m.group(1), m.group(2)
+        for lid, fn in loops:
+            if sub in fn and (k is None or lid.endswith('.' + k)):
+                out.append(f'{lid}:{b}')
     return ','.join(out)
 
 
@@ -284,6 +307,9 @@ def run_W(h, meta, wdir, timeout, mem_gb):
     c = classify(res)
     r.update(c)
     r['checks'] = c['total'] + 1
+    if status not in ('success', 'failure') or any(x.get('status') == 'ERROR' for x in res):
+        r.update(verdict='error', detail=('side checks: ' + '; '.join(errs) or f'cProverStatus={status}')[:300], time=time.time() - t0)
+        return r
     if c['unwind_fail'] or c['unsupported'] or c['failed']:
         v = 'unwind' if c['unwind_fail'] else 'unsupported' if c['unsupported'] else 'failed'
         d = (c['unwind_fail'] or c['unsupported'] or [c['failed'][0]['description'] + ' @ ' + c['failed'][0]['where']])[0]
@@ -293,8 +319,16 @@ def run_W(h, meta, wdir, timeout, mem_gb):
         r.update(verdict='vacuous', detail='no cover witness satisfied', time=time.time() - t0)
         return r
     # 2. the main assertion by cvc5 (word level)
-    lines = [l for l in open(smt) if not l.startswith('(get-value') and not l.startswith('(exit')]
-    open(smt, 'w').writelines(lines)
+    txt = ''.join(l for l in open(smt) if not l.startswith('(get-value') and not l.startswith('(exit'))
+    # CBMC 6.11's SMT2 back end lays out `overflow_result-*` as concat(result, overflow-bit) although struct members are
+    # extracted with member 0 in the low bits: the product would be read shifted by one bit.  Re-order the concat.
+    txt, nfix = re.subn(r'\(concat \(\(_ extract (\d+) 0\) prod\) \(ite \((bv[su]ge prod \(_ bv\d+ \d+\))\) #b1 #b0\)\)',
+                        r'(concat (ite (\2) #b1 #b0) ((_ extract \1 0) prod))', txt)
+    r['smt_overflow_result_fixups'] = nfix
+    if re.search(r'\(concat \(\(_ extract \d+ 0\) \w+\) \(ite [^\n]{0,200}? #b1 #b0\)\)', txt):
+        r.update(verdict='error', detail='unrecognised overflow_result layout in SMT export', time=time.time() - t0)
+        return r
+    open(smt, 'w').write(txt)
     rc, out, errt, walls, st = run(['cvc5', '--lang', 'smt2', smt], timeout, mem_gb)
     r['smt_time'] = walls
     r['smt_bytes'] = os.path.getsize(smt)
@@ -425,6 +459,9 @@ def do_replay(path):
 # ---------------------------------------------------------------------------------------------
 
 def main():
+    import signal
+    signal.signal(signal.SIGTERM, kill_children)
+    signal.signal(signal.SIGINT, kill_children)
     ap = argparse.ArgumentParser()
     ap.add_argument('pid')
     ap.add_argument('--tier', default=os.environ.get('VERIF_TIER', 'quick'))
